@@ -228,7 +228,7 @@ RPool == [A |-> <<LW!Ent("base", N(8192), Zero(8), <<>>), LW!Ent("opair", N(16),
           F |-> <<LW!Ent("se", N(4096), N(4100), <<>>), LW!Ent("slen", N(5000), N(7), <<>>)>>]
 WithExpr(L, x) == [i \in DOMAIN L |-> IF L[i].k = "base" THEN L[i] ELSE [L[i] EXCEPT !.d = <<80 + x + i>>]]
 LPool == [A |-> WithExpr(RPool.A, 0), B |-> WithExpr(RPool.B, 2), C |-> WithExpr(RPool.C, 4), D |-> WithExpr(RPool.D, 6),
-          E |-> WithExpr(RPool.E, 8), F |-> <<LW!Ent("defloc", Zero(8), Zero(8), <<95>>), LW!Ent("se", N(256), N(512), <<94>>)>>]
+          E |-> WithExpr(RPool.E, 8), F2 |-> WithExpr(RPool.F, 10), F |-> <<LW!Ent("defloc", Zero(8), Zero(8), <<95>>), LW!Ent("se", N(256), N(512), <<94>>)>>]
 ListSeqs == {<<x, y>> : x \in {"A", "B", "C", "D", "E", "F"}, y \in {"A", "B", "C", "D", "E", "F"}}
             \cup {<<x, y, z>> : x \in {"A", "B"}, y \in {"A", "B", "C", "D"}, z \in {"B", "C", "D"}}
 LowPcs == <<<<>>, <<N(0)>>, <<N(4096)>>>>
@@ -256,6 +256,28 @@ ListsNext ==
                               SetCall(2, 2, "DW_AT_ranges", [k |-> "RangeListRef", list |-> RPool.B]),
                               SetCall(2, 2, "DW_AT_frame_base", [k |-> "LocationListRef", list |-> LPool.C])>>,
                be |-> (c.v + c.lp + Len(rs) + Salt) % 4 = 0, probe |-> "lists"]
+ListRef(L, u, e) == [i \in DOMAIN L |-> IF L[i].k = "base" THEN L[i] ELSE L[i] @@ [ref |-> [u |-> u, e |-> e]]]
+(* location-list expressions with entry references (same unit backward / forward, *)
+(* cross-unit both ways) in a Dwarf that mixes a version 5 unit with an older one, *)
+(* both with location lists                                                       *)
+ListRefsNext ==
+    /\ c.stage = 0 /\ "v" \in DOMAIN c /\ c.lp <= 2
+    /\ \E w \in {4, 8} : \E swap \in BOOLEAN :
+         LET v2 == IF c.v = 5 THEN 4 ELSE 5
+             va == IF swap THEN v2 ELSE c.v
+             vb == IF swap THEN c.v ELSE v2 IN
+         c' = [stage |-> 1, encs |-> <<Enc(va, w, 8), Enc(vb, 12 - w, 8)>>,
+               calls |-> (IF LowPcs[c.lp] = <<>> THEN <<>>
+                          ELSE <<SetCall(1, 1, "DW_AT_low_pc", V("Address", LowPcs[c.lp][1]))>>)
+                         \o <<AddCall(1, 1, "DW_TAG_subprogram"), AddCall(1, 1, "DW_TAG_variable"), AddCall(1, 1, "DW_TAG_variable"),
+                              AddCall(2, 1, "DW_TAG_variable"), AddCall(2, 1, "DW_TAG_variable"),
+                              SetCall(1, 3, "DW_AT_frame_base", [k |-> "LocationListRef", list |-> ListRef(LPool.B, 1, 2)]),   \* backward
+                              SetCall(1, 2, "DW_AT_frame_base", [k |-> "LocationListRef", list |-> ListRef(LPool.C, 1, 4)]),   \* forward
+                              SetCall(1, 4, "DW_AT_frame_base", [k |-> "LocationListRef", list |-> ListRef(LPool.F2, 2, 3)]),  \* cross-unit forward
+                              SetCall(2, 2, "DW_AT_frame_base", [k |-> "LocationListRef", list |-> ListRef(LPool.B, 1, 3)]),   \* cross-unit backward
+                              SetCall(2, 3, "DW_AT_frame_base", [k |-> "LocationListRef", list |-> ListRef(LPool.C, 2, 2)]),
+                              SetCall(2, 3, "DW_AT_ranges", [k |-> "RangeListRef", list |-> RPool.B])>>,
+               be |-> (c.v + c.lp + w + Salt) % 3 = 0, probe |-> "lists"]
 
 -----------------------------------------------------------------------------
 (* Mode "twins" *)
@@ -398,7 +420,7 @@ Init == c = IF Mode = "kinds" THEN [stage |-> -1]
             ELSE [stage |-> 0, phase |-> "S", calls |-> <<>>, ns |-> 0, nm |-> 0, nu |-> 1]
 Next == IF Mode = "kinds" THEN KindsFan \/ KindsNext \/ BadNext \/ Bad3Next
         ELSE IF Mode = "wide" THEN WideFan \/ WideNext
-        ELSE IF Mode = "lists" THEN ListsFan \/ ListsNext
+        ELSE IF Mode = "lists" THEN ListsFan \/ ListsNext \/ ListRefsNext
         ELSE IF Mode = "twins" THEN TwinsFan \/ TwinsNext
         ELSE IF Mode = "files" THEN FilesFan \/ FilesNext
         ELSE StructNext \/ ToMods \/ ModNext \/ BuilderFinish \/ SetUnits
